@@ -317,7 +317,7 @@ impl Parser {
     /// Status: standard
     pub(crate) fn scroll_left(&mut self, buf: &mut Buffer, layer: usize) {
         let num = if let Some(number) = self.parsed_numbers.first() { *number } else { 1 };
-        (0..num.min(buf.terminal_state.get_width())).for_each(|_| buf.scroll_left(layer));
+        buf.scroll_left_by(layer, num.min(buf.terminal_state.get_width()));
     }
 
     /// Sequence: `CSI Pn SP A`</p>
@@ -338,7 +338,7 @@ impl Parser {
     /// Status: standard
     pub(crate) fn scroll_right(&mut self, buf: &mut Buffer, layer: usize) {
         let num = if let Some(number) = self.parsed_numbers.first() { *number } else { 1 };
-        (0..num.min(buf.terminal_state.get_width())).for_each(|_| buf.scroll_right(layer));
+        buf.scroll_right_by(layer, num.min(buf.terminal_state.get_width()));
     }
 
     /// Sequence: `CSI Pt ; Pb r`</p>
